@@ -123,6 +123,91 @@ func init() {
 		}
 	}
 
+	// one request stays unanswered while the 13-bit request counter wraps
+	e3tests["c11-idwrap"] = func(e *e3, thorough bool) {
+		if e.shard != 0 {
+			return
+		}
+		cfg := baseConfig()
+		cfg.PauseTimeout = 0
+		c, conn, stop, err := onlineClient(cfg, nil)
+		if err != nil {
+			e.violate("C11", "setup", "%v", err)
+			return
+		}
+		defer stop()
+		conn.mu.Lock()
+		conn.holdFilter = "hold/me"
+		conn.mu.Unlock()
+		heldRes := make(chan error, 1)
+		go func() { heldRes <- c.Subscribe(nil, "hold/me") }()
+		for i := 0; i < 5000; i++ {
+			conn.mu.Lock()
+			id := conn.heldID
+			conn.mu.Unlock()
+			if id != 0 {
+				break
+			}
+			time.Sleep(time.Millisecond)
+		}
+		conn.mu.Lock()
+		held := conn.heldID
+		conn.mu.Unlock()
+		if held == 0 {
+			e.violate("C11", "setup", "the held SUBSCRIBE never reached the wire")
+			return
+		}
+		// 8191 answered requests bring the counter back to the held identifier's number
+		for i := 0; i < 8191; i++ {
+			var err error
+			if i%2 == 0 {
+				err = c.Unsubscribe(nil, "u")
+			} else {
+				err = c.Subscribe(nil, "s")
+			}
+			e.evals++
+			if err != nil {
+				e.violate("C11", "idwrap-request-failed", "request %d: %v", i, err)
+				return
+			}
+		}
+		conn.reset()
+		second := make(chan error, 1)
+		go func() { second <- c.Subscribe(nil, "second") }()
+		select {
+		case err := <-second:
+			if err != nil {
+				e.violate("C11", "response-to-other-caller", "the Subscribe issued after the counter wrapped returned %v; the broker granted it", err)
+			}
+		case <-time.After(5 * time.Second):
+			e.violate("C11", "call-never-returns#sub", "the Subscribe issued after the counter wrapped does not return although the broker answered it")
+		}
+		pk, _ := conn.packets()
+		for _, p := range pk {
+			if p.Type == tSUBSCRIBE && p.ID == held {
+				e.violate("C17", "identifier-reused-in-flight", "SUBSCRIBE %q reuses identifier %#04x, which is still pending", p.Filters, held)
+				e.violate("C11", "identifier-reused-in-flight", "SUBSCRIBE %q reuses identifier %#04x, which is still pending", p.Filters, held)
+			}
+		}
+		// now the broker fails the held one: its caller gets its own answer
+		conn.mu.Lock()
+		conn.in = append(conn.in, encSuback(held, []byte{0x80})...)
+		conn.cond.Broadcast()
+		conn.mu.Unlock()
+		select {
+		case err := <-heldRes:
+			var se mqtt.SubscribeError
+			if !errors.As(err, &se) || len(se) != 1 || se[0] != "hold/me" {
+				e.violate("C11", "response-to-other-caller", "the held Subscribe returned %v, want SubscribeError[hold/me]", err)
+			}
+		case <-time.After(5 * time.Second):
+			e.violate("C11", "call-never-returns#sub", "the held Subscribe never returns although the broker answered its identifier %#04x", held)
+		}
+		e.distinct["idwrap"] = true
+		e.distinct["idwrap-held"] = true
+		e.sample("Subscribe %#04x held open across 8191 answered requests; the next one must get a fresh identifier", held)
+	}
+
 	e3tests["c17-slots"] = func(e *e3, thorough bool) {
 		if e.shard != 0 {
 			return
